@@ -36,7 +36,7 @@ def scan_events(text):
 
 # stems of the additional files: they end in characters of ".i" / contain the suffix inside (a stem is what is left
 # when the SUFFIX is removed, not when its characters are stripped)
-STEMS = ["multi", "imu_pi", "navi"]
+STEMS = ["multi", "basic-types", "imu_pi"]      # (a stem need not be an identifier: both sides must use the SAME name)
 
 
 def split_job(item):
@@ -227,7 +227,19 @@ def main():
     tops = {}
     for c in allc:
         ps = ns_paths(c["cst"])
-        tops[c["id"]] = rng.choice([[]] + ps + [["zz"]]) if ps else rng.choice([[], ["zz"]])
+        def populated(cst, path):      # the namespace at `path` declares something itself
+            for d in cst:
+                if d["k"] == "namespace" and d["name"] == path[0]:
+                    if len(path) == 1:
+                        if any(x["k"] != "namespace" for x in d["items"]):
+                            return True
+                    elif populated(d["items"], path[1:]):
+                        return True
+            return False
+        deep = [p_ for p_ in ps if len(p_) >= 2 and populated(c["cst"], p_)]
+        # (half of the modules that have a namespace nested two levels get a top namespace of that depth: a::b on the CLI)
+        tops[c["id"]] = rng.choice(deep) if deep and rng.random() < 0.5 else \
+            (rng.choice([[]] + ps + [["zz"]]) if ps else rng.choice([[], ["zz"]]))
     info = {}
     chunks = [allc[k:k + 300] for k in range(0, len(allc), 300)]
 
@@ -267,7 +279,9 @@ def main():
     def nclasses(c):
         return sum(1 for t in c["toks"] if t == "class") - sum(1 for a, b in zip(c["toks"], c["toks"][1:]) if a == "enum" and b == "class")
     rich = [c for c in allc if nclasses(c) >= 2]
-    pool = rng.sample(rich, min(len(rich), 40 if thorough else 5)) + rng.sample(allc, min(len(allc), 20 if thorough else 3))
+    deeptop = [c for c in allc if len(tops[c["id"]]) >= 2]      # --top_module_namespaces a::b
+    pool = rng.sample(rich, min(len(rich), 40 if thorough else 5)) + rng.sample(allc, min(len(allc), 20 if thorough else 3)) \
+        + rng.sample(deeptop, min(len(deeptop), 20 if thorough else 3))
     for c in pool:
         text = layout.render(c["toks"])
         inf = info[c["id"]]
